@@ -342,16 +342,15 @@ func init() {
 		Doc: "Removed rows are found the way added rows are: (*Differ).diffRows walks the tables twice through iterateAndMatch; the second call's arguments are the first call's with every pair of sides swapped — for each argument position i whose value differs between the two calls there is a position j of the same type with second[i] = first[j] and second[j] = first[i], at least the store, table and table-index pairs are swapped, and every other argument is the same value. A half-swapped second pass (the other store with this side's table index, say) looks rows up in the wrong table: removals are missed or invented.",
 		Min: 1,
 		Run: func(p *Program, r *RuleResult) error {
-			fn, err := p.SSAFunc("pkg/diff.(*Differ).diffRows")
-			if err != nil {
-				return err
-			}
-			iam, err := p.MustFuncs("pkg/diff.iterateAndMatch")
+			fn, passes, err := diffPasses(p)
 			if err != nil {
 				return err
 			}
 			r.Analysed = 1
-			calls := callsTo(fn, iam)
+			var calls []ssa.CallInstruction
+			for _, dp := range passes {
+				calls = append(calls, dp.call)
+			}
 			key := funcName(fn) + "|mirror"
 			what := "the second pass is the first with the two sides swapped"
 			if len(calls) != 2 {
@@ -363,7 +362,21 @@ func init() {
 				r.bad(key, p.Rel(fn.Pos()), what, "the two calls differ in their number of arguments")
 				return nil
 			}
-			same := func(x, y ssa.Value) bool { return x == y || sameObject(x, y) || sameElem(x, y) }
+			same := func(x, y ssa.Value) bool {
+				if x == y || sameObject(x, y) || sameElem(x, y) {
+					return true
+				}
+				// the two calls may sit in two methods of the Differ: compare receiver fields by name
+				for _, hx := range []*ssa.Function{passes[0].holder, passes[1].holder} {
+					for _, hy := range []*ssa.Function{passes[0].holder, passes[1].holder} {
+						tx, ty := argToken(x, hx), argToken(y, hy)
+						if strings.HasPrefix(tx, "recv.") && tx == ty {
+							return true
+						}
+					}
+				}
+				return false
+			}
 			swapped, bad := 0, ""
 			for i := range a {
 				if _, isFn := a[i].Type().Underlying().(*types.Signature); isFn {
@@ -426,16 +439,15 @@ func init() {
 		Doc: "No key is reported twice: the callback that diffRows hands to the second (swapped) pass sends a diff event only through the 'no matching row on the other side' edge (row2 == nil) — rows present on both sides were already reported, as modified or unchanged, by the first pass. Without the test every modified row appears once as modified and once as removed.",
 		Min: 1,
 		Run: func(p *Program, r *RuleResult) error {
-			fn, err := p.SSAFunc("pkg/diff.(*Differ).diffRows")
-			if err != nil {
-				return err
-			}
-			iam, err := p.MustFuncs("pkg/diff.iterateAndMatch")
+			fn, passes, err := diffPasses(p)
 			if err != nil {
 				return err
 			}
 			r.Analysed = 1
-			calls := callsTo(fn, iam)
+			var calls []ssa.CallInstruction
+			for _, dp := range passes {
+				calls = append(calls, dp.call)
+			}
 			if len(calls) != 2 {
 				return &AnchorError{"the two iterateAndMatch passes of diffRows"}
 			}
